@@ -74,6 +74,7 @@ def run(exe, mode, call_lines, sdir, tag, env=None, timeout=3600, extra_args=Non
     for k in ("ASAN_OPTIONS", "UBSAN_OPTIONS", "TSAN_OPTIONS"):
         if k in e and "log_path" not in e[k]:
             e[k] += ":log_path=" + logp
+    e["XRLCALL_ORACLE_LOG"] = logp + ".oracle"
     p = subprocess.run([exe, mode, cf, of] + list(extra_args or []), env=e, stdout=subprocess.PIPE, stderr=subprocess.PIPE, timeout=timeout)
     lines = open(of).read().split("\n") if os.path.exists(of) else []
     if lines and lines[-1] == "":
